@@ -67,8 +67,33 @@ def evaluate(spec, cases, classes, driver_ok):
     obs = [real_observe(c, classes) for c in cases]
     replies = run_driver([spec_line(c, o) for c, o in zip(cases, obs)])
     aspects = spec['aspects']
-    for c, o, rp in zip(cases, obs, replies):
+    # the same cases once more on one long-lived instance per device (hidden per-instance state)
+    vets, vobs = {}, []
+    for c in cases:
+        try:
+            if c.dev not in vets:
+                vets[c.dev] = classes[c.dev]()
+            vobs.append(real_observe(c, classes, mpu=vets[c.dev]))
+        except Exception as ex:   # e.g. a veteran left unusable by an earlier raise
+            vets.pop(c.dev, None)
+            vobs.append(None)
+    out['veteran_runs'] = sum(1 for v in vobs if v is not None)
+    for idx, (c, o, rp) in enumerate(zip(cases, obs, replies)):
         d, info = compare(c, o, rp)
+        vo = vobs[idx]
+        hist = None
+        if vo is not None and not d and _obs_sig(vo) != _obs_sig(o):
+            # same state, same memory, different outcome on the veteran: judge the veteran's outcome
+            touched = sorted(set(vo.touched) | set(o.touched))
+            vo.touched = touched
+            vrp = run_driver([spec_line(c, vo)])[0]
+            d, info = compare(c, vo, vrp)
+            hist = _shrink_history(cases, idx, c, classes, _obs_sig(o))
+            d = [(asp, det + ' [only on an instance that executed earlier instructions; a fresh '
+                  'instance behaves as specified]') for asp, det in d] or \
+                [('sem', 'outcome differs between a fresh and a long-lived instance: fresh=%s veteran=%s'
+                  % (_obs_sig(o)[:300], _obs_sig(vo)[:300]))]
+            o, rp = vo, vrp
         W, AW = widths(c.dev)
         opc = c.ov.get(c.pc)
         name, mo = classes[c.dev].disassemble[opc] if opc is not None and 0 <= opc < 256 else ('?', '?')
@@ -97,11 +122,41 @@ def evaluate(spec, cases, classes, driver_ok):
                     key['delta'] = int(m.group(1)) - int(m.group(2))
             if asp == 'raise':
                 key['exc'] = det.split(':')[0]
+            rpl = dict(case=c.to_json(), spec_reply=rp[:800], request=c.line('spec'))
+            if hist is not None:
+                key['history'] = True
+                rpl['earlier_cases_on_the_same_instance'] = hist
             out['findings'].append(dict(key=key, what='%s %s %s $%02x: %s' % (c.dev, name, mo, opc or 0, det),
-                                        replay=dict(case=c.to_json(), spec_reply=rp[:800],
-                                                    request=c.line('spec'))))
+                                        replay=rpl))
     out['nontrivial'] = list(out['nontrivial'])
     return out
+
+
+def _obs_sig(o):
+    if o.raised:
+        return 'raise:' + o.raised
+    parts = []
+    for r in o.ops:
+        parts.append(r if r == 'oob' else '%d %d %d %d %d %d %d %d %s' % (
+            r['a'], r['x'], r['y'], r['sp'], r['p'], r['pc'], r['waiting'], r['dcyc'], ' '.join(r['log'])))
+    return ';'.join(parts)
+
+
+def _shrink_history(cases, idx, c, classes, fresh_sig):
+    """Smallest history found that reproduces the veteran's deviation: one earlier case, else the
+    last 40 cases the instance executed."""
+    lo = max(0, idx - 400)
+    for j in range(idx - 1, lo - 1, -1):
+        if cases[j].dev != c.dev:
+            continue
+        try:
+            m = classes[c.dev]()
+            real_observe(cases[j], classes, mpu=m)
+            if _obs_sig(real_observe(c, classes, mpu=m)) != fresh_sig:
+                return [cases[j].to_json()]
+        except Exception:
+            continue
+    return [x.to_json() for x in cases[max(0, idx - 40):idx] if x.dev == c.dev]
 
 
 def explore(ctx, spec):
@@ -182,7 +237,18 @@ def replay(ctx, path):
         return 0
     classes = device_classes()
     c = Case.from_json(f['replay']['case'])
-    o = real_observe(c, classes)
+    hist = f['replay'].get('earlier_cases_on_the_same_instance')
+    if hist:
+        m = classes[c.dev]()
+        for h in hist:
+            try:
+                real_observe(Case.from_json(h), classes, mpu=m)
+            except Exception:
+                pass
+        print('history: %d earlier case(s) executed on the same instance first' % len(hist))
+        o = real_observe(c, classes, mpu=m)
+    else:
+        o = real_observe(c, classes)
     rp = run_driver([spec_line(c, o)])[0]
     d, info = compare(c, o, rp)
     print('case   :', c.line('spec'))
